@@ -86,10 +86,10 @@ fn find_ddir<'a>(s: &Sess, d: &'a Decoded, node: usize) -> Option<&'a DDir> {
 }
 
 /// (longest run of free slots, trailing free run) of a decoded directory
-fn free_runs(d: &DDir) -> (usize, usize) {
+fn free_runs(d: &DDir, limit: usize) -> (usize, usize) {
     let mut best = 0;
     let mut run = 0;
-    for k in &d.slot_kinds {
+    for k in d.slot_kinds.iter().take(limit) {
         if *k == 0 || *k == 1 {
             run += 1;
             best = best.max(run);
@@ -206,7 +206,10 @@ pub fn judge<'f>(s: &mut Sess, _fs: &'f Fs, _hs: &mut [Option<H<'f>>], op: &Op, 
                     let (fixed_root, max_run, tail, spc_slots, free) = match &s.prev {
                         Some(p) => {
                             let fixed_root = p.g.fat_bits != 32 && dnode == 0;
-                            let (mr, tail) = find_ddir(s, p, dnode).map(free_runs).unwrap_or((0, 0));
+                            // a fixed root may stop at BPB_RootEntCnt or use the rest of its last sector: only room
+                            // within the declared count obliges the library to succeed
+                            let limit = if fixed_root { p.g.root_entries as usize } else { usize::MAX };
+                            let (mr, tail) = find_ddir(s, p, dnode).map(|d| free_runs(d, limit)).unwrap_or((0, 0));
                             (fixed_root, mr, tail, (p.g.cluster_size / 32) as usize, p.free_count)
                         }
                         None => (false, 0, 0, 16, 0),
